@@ -1,5 +1,5 @@
 SPECIFICATION Spec
-CONSTANT TKinds = {"local", "aux1", "trans", "mutual", "arrayself", "diamond"}
+CONSTANT TKinds = {"local", "aux1", "mutual", "anonprop", "anonitems", "anonallof", "sharedparam", "sharedresp"}
 CONSTANT HKinds = {"prop", "tuple", "allof", "alias", "opbody", "code", "sharedparam", "sharedresp", "nested", "opnested", "auxresp", "auxpathitem", "unusedparam", "casesiblings"}
 CONSTANT H2Kinds = {"none", "code", "prop2", "same"}
 INVARIANT InvC01Inductive
